@@ -274,10 +274,19 @@ def read_passwords(path, enc, prefixcount):
     return seq, fi.num_passwords, fi.num_encoding_errors
 
 
+_ro_cache = []
+
+
+def reader_open():
+    if not _ro_cache:
+        _ro_cache.append(K.extract_reader_open())
+    return _ro_cache[0]
+
+
 def stream_text(path, enc):
     """The decoded text as the reader's file object sees it (opened the way the
     source opens it: consts.trainer_io.extract_reader_open)."""
-    ro = K.extract_reader_open()
+    ro = reader_open()
     if ro["kind"] == "codecs":
         with codecs.open(path, "r", encoding=enc, errors="surrogateescape") as f:
             return f.read()
@@ -286,7 +295,7 @@ def stream_text(path, enc):
 
 
 def reader_linebreaks():
-    return K.reader_linebreaks_of(K.extract_reader_open(), char_classes()["linebreak"])
+    return K.reader_linebreaks_of(reader_open(), char_classes()["linebreak"])
 
 
 def unencodable_chars(text, enc):
